@@ -89,7 +89,7 @@ func VecBatches(tier string, emit func(VecCase)) {
 			menu = []int{0, 1, 2, 4, 6, 7, 8}
 		}
 		if n == 4 {
-			menu = []int{0, 2, 4, 7}
+			menu = []int{0, 2, 4, 6, 7, 8}
 		}
 		ProductOf(n, menu, func(v []int) {
 			for mi, metric := range Metrics {
